@@ -100,6 +100,7 @@ func capEnabled(c *Client, k imap.Cap) bool {
 //
 //@ func (c *Client) completeCommand(cmd command, err error)
 //@   props C12:post,pre@call C17:post,pre@call
+//@   ghost-inc completed when true
 //@   ensures err != nil || !changesState(cmd) ==> c.state == old(c.state) && c.mailbox == old(c.mailbox)
 //@   ensures err == nil && isAuthCmd(cmd) ==> c.state == imap.ConnStateAuthenticated && c.mailbox == nil
 //@   ensures err == nil && isUnauthCmd(cmd) ==> c.state == imap.ConnStateNotAuthenticated && c.mailbox == nil
@@ -401,3 +402,13 @@ func inStrings(l []string, n int, s string) bool {
 //@   props C12:post
 //@   ensures err != nil ==> __called("commandEncoder.end")
 //@   ensures err == nil ==> cmd != nil && !__called("commandEncoder.end")
+
+// A tagged response completes the command bearing its tag exactly once, on
+// every path (parse errors included: the deferred completion), successfully
+// only for OK, and completes nothing when no pending command has that tag.
+//
+//@ func (c *Client) readResponseTagged(tag, typ string) (startTLS *startTLSCommand, err error)
+//@   props C12:post,callsite
+//@   callsite Client.completeCommand(cc *Client, cmd command, e error) requires cmd != nil && (e == nil ==> typ == "OK")
+//@   ensures __result("Client.deletePendingCmdByTag") != 0 ==> __ghost("completed") == old(__ghost("completed"))+1
+//@   ensures __result("Client.deletePendingCmdByTag") == 0 ==> __ghost("completed") == old(__ghost("completed")) && err != nil
